@@ -17,7 +17,9 @@ from pv.runner import Res
 ID = "C02"
 RULE = ("generated fragment-F domains (typed/untyped, subtypes, constants, negative literals, (in)equality, numeric "
         "comparisons, nested and/or, forall) x type-correct calls (repeated objects, constants, subtype objects) x "
-        "states total on all ground fluents (every third probe re-uses a State object, every other case re-uses the Operator "
+        "states total on all ground fluents (small values, or large values a small absolute distance apart; constants with "
+        "up to 6 decimals; a third of the cases hand the Operator the problem's own object table without the domain "
+        "constants; every third probe re-uses a State object, every other case re-uses the Operator "
         "objects); plus an exhaustive sweep of every precondition with <= 2 top-level "
         "leaves + <= 1 nested group + <= 1 forall over a fixed vocabulary x every call over a 3-object universe x "
         "every assignment of the ground atoms the formula mentions x 3 fluent valuations.  One evaluation = one "
